@@ -177,6 +177,24 @@ def name_cases(ck, quick):
         b = "fn helper(y){\n  y * 2.0\n}\nfn %s(x){\n  mem(x) + helper(x)\n}\nfn dsp(){\n  %s(now)\n}\n" % (nm, nm)
         for src in ([a if i % 2 == 0 else b] if quick else [a, b]):
             out.append(mk_case("names", "fn-name:" + nm, src, 4))
+    # functions whose LABELS differ only in characters that are not legal in a Rust identifier (module paths are labelled a$b): they must
+    # become different methods (response to seeded change C18d)
+    r = ck.rng.fork("C18-label-clash")
+    words = ["filter", "osc", "lfo", "saw", "env", "onepole", "fx", "gain", "mix", "a", "b2"]
+    for i in range(6 if quick else 40):
+        m, f, g = r.choice(words), r.choice(words), r.choice(words)
+        k = r.range(2, 9)
+        shapes = [
+            # module function next to a top-level wrapper named like its flattened path (different arities)
+            "mod %(m)s {\n  pub fn %(f)s(x, c){\n    self * c + x\n  }\n}\nfn %(m)s_%(f)s(x){\n  %(m)s::%(f)s(x, 0.5) + %(k)d.0\n}\nfn dsp(){\n  %(m)s_%(f)s(1.0)\n}\n",
+            # the same with equal arities and different bodies
+            "mod %(m)s {\n  pub fn %(f)s(x){\n    mem(x) + 1.0\n  }\n}\nfn %(m)s_%(f)s(x){\n  x * %(k)d.0\n}\nfn dsp(){\n  %(m)s::%(f)s(now) * 100.0 + %(m)s_%(f)s(now)\n}\n",
+            # two module paths that flatten to the same words
+            "mod %(m)s {\n  pub mod %(f)s {\n    pub fn %(g)s(x){\n      self + x\n    }\n  }\n}\nmod %(m)s_%(f)s {\n  pub fn %(g)s(x){\n    x * %(k)d.0\n  }\n}\n"
+            "fn dsp(){\n  %(m)s::%(f)s::%(g)s(1.0) * 1000.0 + %(m)s_%(f)s::%(g)s(now)\n}\n",
+        ]
+        src = shapes[i % 3] % {"m": m, "f": f, "g": g, "k": k}
+        out.append(mk_case("names", "label-clash:%s_%s#%d" % (m, f, i % 3), src, 5))
     return out
 
 
